@@ -13,7 +13,7 @@
        markers of that directory are subtracted.
 """
 from ..terms import get_tracer, fmt, strip, short, walk, passthrough_of
-from ..pathflow import World
+from ..pathflow import World, MUTATING
 from ..overlayrules import Overlay, literal_pieces
 from ..pathrules import sname, peel
 from ..panics import norm
@@ -237,6 +237,30 @@ def table_u(facts, rep, w, rule="R09.1", only=None):
                 rep.ob(rule, b.id, "remove_dir: union directory empty before %s" % what, em, "" if em else
                        "remove_dir hides the directory without checking the merged listing: children in lower layers "
                        "stay visible under a hidden parent", s.line)
+        # the marker is written only once the write layer no longer has the path: on every path to it the write layer was either
+        # found not to have the entry (exists == false) or its copy was removed successfully.  A removal that is skipped for
+        # another reason ("the upper entry is not a file") leaves the upper entry — for a directory, with everything below it —
+        # in place under a marker that hides it: the children stay reachable under a parent that does not exist
+        for cb, s, tr, recv in marks:
+            sets = ov.path_guard_sets(cb, s.bb)
+            gone = sets is not None
+            for gs in sets or ():
+                absent = any(g[0] == "bool" and g[2] is False and peel(g[1])[0] == "call" and sname(peel(g[1])[1]) == "exists" and
+                             peel(g[1])[2] and ov.is_upper_plain(peel(g[1])[2][0]) for g in gs)
+                removed = any(g[0] == "variant" and g[2] == "ok" and peel(g[1])[0] == "call" and sname(peel(g[1])[1]) in (op, "remove_dir_all") and
+                              peel(g[1])[2] and ov.is_upper_plain(peel(g[1])[2][0]) for g in gs)
+                # (once the union entry is known to be of the operation's type, "the write layer has no entry of that type here" is
+                # the same as "it has no entry here": the topmost entry decides the union's type)
+                typed = ov.u_type(ov.guards(cb, s.bb), ov.is_key, typ)
+                pred_ = "is_file" if typ == "File" else "is_dir"
+                absent_t = typed and any(g[0] == "bool" and g[2] is False and peel(g[1])[0] == "call" and sname(peel(g[1])[1]) == pred_ and
+                                         peel(g[1])[2] and ov.is_upper_plain(peel(g[1])[2][0]) for g in gs)
+                if not (absent or removed or absent_t):
+                    gone = False
+            n += 1
+            rep.ob(rule, b.id, "%s: marker only once the write layer no longer has the path" % op, gone, "" if gone else
+                   "the marker can be written on a path where the write layer's copy was neither found absent nor removed (its removal "
+                   "is skipped under another condition): the entry stays in the write layer under a marker that hides it", s.line)
     # ---- time setters
     for op in ("set_creation_time", "set_modification_time", "set_access_time"):
         b = ov.ops.get(op)
@@ -330,6 +354,14 @@ def resolver_rules(facts, rep, w, rule="R09.3"):
             if cb is ov.inter.code_body(b):
                 n += 1
                 rep.ob(rule, b.id, "resolver: looks layers up", len(lookups) >= 1, "%d layer lookups" % len(lookups), b.span)
+                # ... every one of them: some lookup runs on the elements of an iteration over the layer vector, not only on layers
+                # picked by position (the first and the last: layers in between would be listed by read_dir, which merges all
+                # layers, but not found by exists / metadata / open_file)
+                each = any(any(o[0] == "elem" for o in ov.pf.fs_origin(tr.operand(s_.args[0]))) for s_ in lookups)
+                n += 1
+                rep.ob(rule, b.id, "resolver: every layer is consulted", each, "" if each else
+                       "the resolver looks at layers picked by index only: a layer that is neither of them is never consulted, so "
+                       "entries it alone holds are listed by their parent but do not exist", b.span)
             for s in lookups:
                 gs = ov.guards(cb, s.bb)
                 mk = False
@@ -468,6 +500,76 @@ def listing_rules(facts, rep, w, rule="R09.4"):
                "%d type test(s) of the layer entry" % len(tests) if tests else
                "every layer that has an entry of that name is listed unconditionally: a directory (re-)created over a lower-layer "
                "file of the same name cannot be listed ('Not a directory' from the lower layer)", b.span)
+        # ... for every layer below the first one that was listed: the condition that sends a layer's entry to the type test is a
+        # flag that is raised when a layer is listed (false before the loop, set on the way to / from the listing call), not
+        # something computed from what has been collected so far — an *empty* directory above a lower-layer file of the same name
+        # has contributed nothing, and the file would be asked for its listing ('Not a directory')
+        for cb, s_t, tr in [(cb, s, tr) for cb, s, tr in ov.sites(b) if s in tests]:
+            cfg = tr.cfg
+
+            def root_of(l, depth=4):
+                while depth > 0:
+                    depth -= 1
+                    ds = tr.defs.get(l, [])
+                    if len(ds) == 1 and ds[0][0] == "assign":
+                        rv = cb.blocks[ds[0][1]].stmts[ds[0][2]].rv
+                        if rv.kind == "use" and rv.ops[0].place is not None and rv.ops[0].place.is_local():
+                            l = rv.ops[0].place.local
+                            continue
+                    break
+                return l
+            for (es, ed, label) in cfg.dominating_edges(s_t.bb):
+                t_ = cb.blocks[es].term
+                if label is None or t_.kind != "switch" or t_.discr.place is None or not t_.discr.place.is_local():
+                    continue
+                L = root_of(t_.discr.place.local)
+                if cb.local_ty(L) != "bool":
+                    continue
+                ds = tr.defs.get(L, [])
+                if any(k_ == "call" for k_, _, _ in ds):
+                    continue        # the result of a call (exists / a predicate), not a flag
+                def is_try_payload(rv):
+                    return rv.kind == "use" and rv.ops[0].place is not None and any(isinstance(p_, dict) and "downcast" in p_ for p_ in rv.ops[0].place.proj)
+                if any(k_ == "assign" and is_try_payload(cb.blocks[bb_].stmts[ix_].rv) for k_, bb_, ix_ in ds):
+                    continue        # the payload of `predicate()?`
+                if not cfg.reaches(s_t.bb, es):
+                    continue        # a test made once, outside the loop
+                # what the condition is made of: constants and plain locals (a flag, a counter of listed layers) — or calls
+                computed = False
+                consts = []         # (is this a def that raises / counts, block)
+                seen_l, todo_l = set(), [L]
+                while todo_l:
+                    l_ = todo_l.pop()
+                    if l_ in seen_l or len(seen_l) > 12:
+                        continue
+                    seen_l.add(l_)
+                    for k_, bb_, ix_ in tr.defs.get(l_, []):
+                        if k_ != "assign":
+                            computed = True
+                            continue
+                        rv = cb.blocks[bb_].stmts[ix_].rv
+                        if rv.kind in ("use", "bin", "un", "cast"):
+                            allc = True
+                            for o_ in rv.ops:
+                                if o_.kind == "const":
+                                    continue
+                                allc = False
+                                if o_.place is not None:
+                                    todo_l.append(o_.place.local)
+                            c_ = rv.ops[0].const_int() if (rv.kind == "use" and allc) else None
+                            # a def that can make the condition true: `flag = true`, or arithmetic on a counter (`n += 1`)
+                            consts.append((1 if (c_ == 1 or (rv.kind == "bin" and rv.op in ("Add", "AddWithOverflow", "AddUnchecked"))) else 0, bb_))
+                        else:
+                            computed = True
+                raised = any(c_ == 1 and any(cfg.dominates(bb_, x[1].bb) or cfg.dominates(x[1].bb, bb_) for x in any_layer if x[0] is cb)
+                             for c_, bb_ in consts)
+                okf = not computed and raised
+                n += 1
+                rep.ob(rule, b.id, "layers below the first listed one are type-tested (flag raised when a layer is listed)", okf, "" if okf else
+                       "the condition that sends a lower layer's entry to the type test is %s: a layer above that served the directory "
+                       "without contributing anything the condition sees (an empty directory) leaves a same-named file of a lower layer "
+                       "to be listed — 'Not a directory'" % ("computed from other state" if computed else "a flag that is not raised where a layer is listed"),
+                       t_.line)
     # union exists guard before listing
     if inserts:
         cb, s, tr = inserts[0]
@@ -644,6 +746,17 @@ def materialisation_rules(facts, rep, w, rule="R09.2"):
                 if hb is not None and hb.impl and hb.impl["self_ty"] == w.overlay:
                     continue   # the overlay's own helpers / trait methods (union lookups)
                 extra.append(short(top[1]))
+            # ... and it is the whole step: the helper that mirrors the parent chain makes no other mutating call on the write layer.
+            # Anything more (carrying a time stamp over with set_modification_time, an optional operation whose provided body
+            # answers NotSupported; touching a marker) can fail where create_dir_all — which tolerates a concurrent creator —
+            # does not, and then a create below a lower-layer directory fails on some stacks although the union shows the parent
+            if b.id in {h_.id for h_ in ov.helpers.values()}:
+                more = [(sname(s3.path), s3.line) for cb3, s3, tr3 in ov.sites(b)
+                        if s3 is not s and sname(s3.path) in MUTATING and (s3.self_ty or "").endswith("VfsPath")]
+                n += 1
+                rep.ob(rule, b.id, "materialisation is create_dir_all and nothing else", not more, "" if not more else
+                       "the helper that mirrors the parent chain also calls %s on a layer path: a step that can fail (NotSupported of an "
+                       "optional operation, a refusal) where the tolerant create_dir_all succeeded" % more[0][0], more[0][1] if more else s.line)
             n += 1
             rep.ob(rule, b.id, "materialisation depends only on the union lookup", not extra,
                    "" if not extra else "create_dir_all on the upper layer is additionally conditional on %s: the copy-up can be skipped "
@@ -667,10 +780,16 @@ def run(facts, rep, tier, ctx):
     from . import c10
     n = c10.marker_rules(facts, rep, ws, prefix="R09.5")
     rep.floor("marker protocol obligations (shared with C10)", n, 20)
+    # the union is over the layers the caller gave, resolved at each call: a constructor that filters or re-orders them (keeps only
+    # the layers that exist at construction time) drops what such a layer holds later from the union (shared with C08 R08.8)
+    from . import c08 as _c08
+    n = _c08.constructor_rules(facts, rep, ws, "R09.8")
+    rep.floor("overlay constructors judged (R09.8)", n, 1)
     # the async overlay is a separate copy of the same code
     wa = World(facts, True)
     rep.ob("R09.A", "async_vfs", "async world present", wa.present(), "", "")
     if wa.present():
+        _c08.constructor_rules(facts, rep, wa, "A/R09.8")
         A = c10._Prefixed(rep, "A")
         k = table_u(facts, A, wa, "R09.1") + materialisation_rules(facts, A, wa) + resolver_rules(facts, A, wa) + \
             listing_rules(facts, A, wa) + c10.marker_rules(facts, A, wa, prefix="R09.5") + relative_join_rules(facts, A, wa)
